@@ -328,14 +328,23 @@ def run_split(desc):
     st, seq = _strategies()
     out = Outcome()
 
+    # half of the cases draw bracket expressions with POSIX classes, ranges, `|` and `]` members (written bare where the syntax
+    # allows it): a `|` inside a bracket expression is not a place to split
+    seq2 = A.st_seq(max_budget=4, max_depth=2, max_alts=2, alphabet='ab.x|[]', posix=True, ranges=True, set_alphabet='ab|]^!-[.|')
+
     @seed(desc['seed'])
     @util.hyp_settings(desc['n'], shrink=False)
-    @given(st.lists(seq, min_size=1, max_size=4), st.sampled_from(['fn', 'gl']), st.booleans(), st.integers(0, 2), st.booleans())
-    def test(pieces, mode, dot, entry, ext):
+    @given(st.one_of(st.lists(seq, min_size=1, max_size=4), st.lists(seq2, min_size=1, max_size=3)), st.sampled_from(['fn', 'gl']), st.booleans(),
+           st.integers(0, 2), st.booleans(), st.sampled_from([0, 0, 2, 3, 6, 7]))
+    def test(pieces, mode, dot, entry, ext, variant):
         pieces = [s for s in pieces if s]
         if not pieces:
             return
-        render = (lambda s: A.render(s)) if ext else (lambda s: A.render_plain(A.flatten_ext(s)).replace('|', '\\|'))
+        if ext:
+            render = lambda s: A.render(s, variant=variant)
+        else:
+            # a bar that is not inside a bracket expression is escaped; one inside stays as it is
+            render = lambda s: ''.join(A.render_set(n, variant) if n[0] == 'set' else A.render_plain((n,)).replace('|', '\\|') for n in A.flatten_ext(s))
         texts = [render(s) for s in pieces]
         joined = '|'.join(texts)
         mod = F if mode == 'fn' else G
@@ -357,6 +366,7 @@ def run_split(desc):
         out.evaluations += len(names)
         out.stats['cases'] += 1
         out.stats['split_with_inner_bar'] += any('|' in t for t in texts)
+        out.stats['split_with_bar_in_bracket'] += any(n[0] == 'set' and any(it == ('c', '|') for it in n[2]) for s in pieces for n in s)
         for label, g in (('joined', got), ('list-with-SPLIT', got_list)):
             if g != want:
                 diff = sorted(g ^ want)
